@@ -6,6 +6,7 @@ import (
 	"time"
 
 	"github.com/relab/hotstuff"
+	"github.com/relab/hotstuff/protocol/rules"
 	"github.com/relab/hotstuff/zverif/cluster"
 	"github.com/relab/hotstuff/zverif/ev"
 )
@@ -28,20 +29,31 @@ type e1Run struct {
 func e1Runs(quick bool) []e1Run {
 	var runs []e1Run
 	for _, rs := range cluster.RulesNames {
+		fast := rs == rules.NameFastHotStuff // never commits on this tree (known finding C05): fewer runs
 		if quick {
-			runs = append(runs,
-				e1Run{"all interleavings, fault-free", cluster.Config{N: 4, Rules: rs, Horizon: 1, Timeouts: 1}, -1, 20 * time.Second},
-				e1Run{"<=1 deviation, fault-free", cluster.Config{N: 4, Rules: rs, Horizon: 6, Timeouts: 12, Dups: 1, Drops: true}, 1, 30 * time.Second},
-				e1Run{"<=1 deviation, twin", cluster.Config{N: 4, Rules: rs, Horizon: 6, Timeouts: 12, Drops: true, Twin: 3}, 1, 30 * time.Second},
-				e1Run{"<=1 deviation, scripted Byzantine replica", cluster.Config{N: 4, Rules: rs, Horizon: 5, Timeouts: 12, Byz: 2, Crafter: 4}, 1, 30 * time.Second},
-			)
+			if rs != rules.NameSimpleHotStuff {
+				runs = append(runs, e1Run{"all interleavings, fault-free", cluster.Config{N: 4, Rules: rs, Horizon: 1, Timeouts: 1}, -1, 20 * time.Second})
+			}
+			runs = append(runs, e1Run{"<=1 deviation, fault-free", cluster.Config{N: 4, Rules: rs, Horizon: 6, Timeouts: 12, Dups: 1, Drops: true}, 1, 25 * time.Second})
+			if !fast {
+				runs = append(runs,
+					e1Run{"<=1 deviation, twin", cluster.Config{N: 4, Rules: rs, Horizon: 6, Timeouts: 12, Drops: true, Twin: 3}, 1, 25 * time.Second},
+					e1Run{"<=1 deviation, scripted Byzantine replica", cluster.Config{N: 4, Rules: rs, Horizon: 5, Timeouts: 12, Byz: 2, Crafter: 4}, 1, 25 * time.Second},
+					e1Run{"<=1 deviation, one silent replica", cluster.Config{N: 4, Rules: rs, Horizon: 8, Timeouts: 16, Drops: true, Crashed: map[hotstuff.ID]bool{4: true}}, 1, 25 * time.Second},
+				)
+			}
 		} else {
 			runs = append(runs,
 				e1Run{"all interleavings, fault-free", cluster.Config{N: 4, Rules: rs, Horizon: 2, Timeouts: 1}, -1, 15 * time.Minute},
 				e1Run{"<=2 deviations, fault-free", cluster.Config{N: 4, Rules: rs, Horizon: 6, Timeouts: 12, Dups: 1, Drops: true}, 2, 15 * time.Minute},
-				e1Run{"<=2 deviations, twin", cluster.Config{N: 4, Rules: rs, Horizon: 6, Timeouts: 12, Drops: true, Twin: 3}, 2, 15 * time.Minute},
-				e1Run{"<=2 deviations, scripted Byzantine replica", cluster.Config{N: 4, Rules: rs, Horizon: 6, Timeouts: 12, Byz: 3, Drops: true, Crafter: 4}, 2, 20 * time.Minute},
 			)
+			if !fast {
+				runs = append(runs,
+					e1Run{"<=2 deviations, twin", cluster.Config{N: 4, Rules: rs, Horizon: 6, Timeouts: 12, Drops: true, Twin: 3}, 2, 15 * time.Minute},
+					e1Run{"<=2 deviations, scripted Byzantine replica", cluster.Config{N: 4, Rules: rs, Horizon: 6, Timeouts: 12, Byz: 3, Drops: true, Crafter: 4}, 2, 20 * time.Minute},
+					e1Run{"<=2 deviations, one silent replica", cluster.Config{N: 4, Rules: rs, Horizon: 7, Timeouts: 16, Drops: true, Crashed: map[hotstuff.ID]bool{4: true}}, 2, 15 * time.Minute},
+				)
+			}
 		}
 	}
 	return runs
@@ -70,6 +82,12 @@ func e1Check(r *ev.Reporter, prop string, _ []string) {
 		if ex.Stopped.Load() {
 			r.Cap(desc + ": time cap reached")
 		}
+		if ex.Starved > 0 {
+			r.Cap(fmt.Sprintf("%s: %d executions abandoned, command stock exhausted", desc, ex.Starved))
+		}
+	}
+	if prop == "C06" {
+		c06Chains(r)
 	}
 	r.Extra["explorations"] = bounds
 	r.Traces = r.Transitions
